@@ -24,6 +24,7 @@ partial def loop (h : IO.FS.Stream) (d : Drv) (pendingOp : Option (List String))
     | none => IO.println s!"PROTOCOL line {d.lineNo}: result without operation"; loop h d none
     | some op =>
       match op, res with
+      | ["nop"], _ => loop h d none
       | ["wipe"], _ => loop h { d with st := {} } none
       | ["snapshot", name], _ => loop h { d with saved := (name, d.st) :: d.saved } none
       | ["restore", name], _ =>
@@ -41,9 +42,9 @@ partial def loop (h : IO.FS.Stream) (d : Drv) (pendingOp : Option (List String))
         match compareResp p.call r p.obs with
         | none => IO.println s!"ok {sig op r.rv}"; loop h d none
         | some why =>
-          IO.println s!"MISMATCH line {d.lineNo}: {" ".intercalate op} => {" ".intercalate res} :: {why}"
+          IO.println s!"MISMATCH line {d.lineNo} cat={mismatchCat r p.obs} op={op.headD "?"} :: {" ".intercalate op} => {" ".intercalate res} :: {why}"
           loop h { d with mism := d.mism + 1 } none
-  | "#trace" :: _ => IO.println line.trimAscii.toString; loop h d pendingOp
+  | "#trace" :: _ => IO.println line.trimAscii.toString; loop h { d with st := {}, saved := [] } none
   | op => loop h d (some op)
 
 def main : IO UInt32 := do
